@@ -61,7 +61,9 @@ def load_findings():
             continue
         m = re.match(r'finding:\s*property=(\S+)\s+obligation=(\S+)\s*(.*)', l)
         if m:
-            out.append(dict(prop=m.group(1), obligation=m.group(2), text=m.group(3)))
+            mi = re.search(r'inputs="([^"]*)"', m.group(3))
+            out.append(dict(prop=m.group(1), obligation=m.group(2), text=m.group(3),
+                            inputs=[x.strip() for x in mi.group(1).split('|')] if mi else None))
     return out
 
 
@@ -289,6 +291,9 @@ def check_property(prop, tier, seed):
     pins = []
     mutants_report = []
     seen_fns = set()
+    undecided_units = []
+    pins_changed = []
+    labels_props = {}
     for uname in pc['units']:
         tmpl = os.path.join(ROOT, 'units', uname + '.vrs')
         out = os.path.join(BUILD, '%s_%s.rs' % (uname, prop))
@@ -310,8 +315,11 @@ def check_property(prop, tier, seed):
             continue
         cmds.append('cd /verif/build && ' + cmd)
         res = analyse(unit, js, diags)
+        for ln_, (props_, label_) in unit.labels.items():
+            labels_props[(uname, label_)] = props_
         if res.hard:
             undecided.append('verus rejected unit %s (not a proof failure): %s' % (uname, res.hard[0][:1500]))
+            undecided_units.append(uname)
             continue
         # resource limits: one retry with 4x rlimit
         if res.resource:
@@ -376,6 +384,9 @@ def check_property(prop, tier, seed):
             if not p['ok']:
                 undecided.append('trusted body %s::%s changed (hash %s, pinned %s): its trusted specification may be stale'
                                  % (p['file'], p['name'], p['actual'], p['sha']))
+                pins_changed.append('%s::%s' % (p['file'], p['name']))
+                if uname not in undecided_units:
+                    undecided_units.append(uname)
         for g in unit.glue:
             glue_used.append('%s at %s %s' % (g['id'], g.get('at', '?'), 'ok' if g['ok'] else 'CHANGED (%s)' % g['actual']))
             if not g['ok']:
@@ -417,15 +428,52 @@ def check_property(prop, tier, seed):
                 mutants_report += list(ex.map(run_mut, muts))
 
     # --- decide
+    from . import cex
+    conformance_note = []
+    if undecided_units:
+        # Verus could not decide these units: a contract clause (or a trusted spec of a changed pinned body) that fails
+        # on the real code for a concrete input is still a sound violation; clauses that hold change nothing.
+        try:
+            conc = cex.conformance(prop, undecided_units, pins_changed, labels_props)
+        except Exception as e:
+            conc = []
+            conformance_note.append('conformance probes failed to run: %s' % e)
+        conformance_note.append('conformance probes run for undecided units %s: %d concrete failure(s)' % (undecided_units, len(conc)))
+        for fl in conc:
+            kf = next((f for f in findings if f['obligation'] == fl['oid']), None)
+            if kf and kf.get('inputs') is not None and set(fl.get('inputs') or []) <= set(kf['inputs']):
+                continue
+            all_fail.append(fl)
     known_printed = []
     violations = []
     for fl in all_fail:
         kf = next((f for f in findings if f['obligation'] == fl['oid']), None)
-        if kf:
+        if kf and not (kf.get('inputs') is not None and fl.get('inputs') and not set(fl['inputs']) <= set(kf['inputs'])):
             known_printed.append((kf, fl))
         else:
             violations.append(fl)
-    failed_count = len(all_fail)
+    # a known finding that names its failing inputs is re-validated on the real code in the thorough tier: a
+    # different failing input of the same obligation is a violation, not the recorded finding
+    if tier == 'thorough':
+        for kf, fl in list(known_printed):
+            if kf.get('inputs') is None:
+                continue
+            now = cex.known_inputs(prop, fl['oid'])
+            if now is None:
+                conformance_note.append('known finding %s: no probe available, inputs not re-validated' % fl['oid'])
+                continue
+            extra = sorted(set(now) - set(kf['inputs']))
+            conformance_note.append('known finding %s: failing inputs on the real code now: %s' % (fl['oid'], now))
+            if extra:
+                v = dict(fl, msg='known-finding obligation fails for inputs that are not recorded: %s' % extra, inputs=extra)
+                known_printed.remove((kf, fl))
+                violations.append(v)
+    # obligations recorded as known findings are reported separately and are not part of the proof-level claim
+    known_oids = sorted(set(fl['oid'] for _, fl in known_printed))
+    n_known_sites = len(known_printed)
+    obligations_total = obligations
+    obligations = max(0, obligations - len(known_oids))
+    failed_count = len(set((v['oid'], v['where']) for v in violations))
     wall = time.time() - t0
     status = 0
     if undecided:
@@ -446,9 +494,12 @@ def check_property(prop, tier, seed):
             not_decided=pc.get('not_decided', []),
             bounded=[],
             teeth=mutants_report,
-            known_findings_printed=[k['obligation'] for k, _ in known_printed],
+            obligations_generated_in_total=obligations_total,
+            known_finding_obligations=known_oids,
+            known_findings_note=('%d obligation(s) fail on this tree and are recorded in known_findings.txt; they are excluded from obligations/discharged above and listed here' % len(known_oids)) if known_oids else 'none',
             repo_rev=rev, repo_dirty=dirty,
             undecided=undecided,
+            conformance=conformance_note,
             failed_obligations=[dict(obligation=f['oid'], msg=f['msg'], at=f['where'], site=f['site']) for f in all_fail],
         ),
         assumptions=pc.get('assumptions', []),
@@ -469,8 +520,10 @@ def check_property(prop, tier, seed):
         os.makedirs(os.path.join(ROOT, 'replays'), exist_ok=True)
         h = hashlib.sha1(('|'.join(sorted(v['oid'] for v in violations))).encode()).hexdigest()[:10]
         rp = os.path.join(ROOT, 'replays', '%s-%s.json' % (prop, h))
-        from . import cex
         found = cex.search(prop, violations, tier, seed)
+        if not found:
+            ci = [dict(obligation=v['oid'], failing_inputs=v['inputs']) for v in violations if v.get('inputs')]
+            found = dict(source='conformance probe', failing=ci) if ci else None
         with open(rp, 'w') as fh:
             json.dump(dict(property=prop, repo_rev=rev, repo_dirty=dirty,
                            failed_obligations=[dict(obligation=v['oid'], message=v['msg'], clause_or_stmt=v['text'],
